@@ -14,7 +14,9 @@ Model of the small directory decoders (property C15), written once and parametri
 Every typed read goes through the typed-read model (`Model/Typed.lean`); every manual cast
 (`&*(p as *const T)`, `slice::from_raw_parts`, `get_unchecked`) goes through `rawRef`, so a missing bounds or
 alignment check in the Rust code would show up as `ub`.  Struct offsets are literal here; the driver op
-`dirs_layout` prints them next to `size_of`/`align_of`/`offset_of` of the current source.
+`dirs_layout` OBSERVES them by running the definitions of this file on probe buffers (Driver/Dirs.lean: the byte an
+accessor depends on, the `Ref`s the decoders hand out) and the harness prints `size_of`/`align_of`/`offset_of` of the
+current source next to them.
 -/
 namespace Pelite.Dirs
 open Pelite Pelite.Pe
@@ -112,6 +114,11 @@ def dbgEntry (v : View) (d : Nat) : Out Ref :=
     if data.len < 12 then .err .bounds
     else if (v.img.base + data.off) % 4 ≠ 0 then .err .misaligned
     else rawRef "dbg:IMAGE_DEBUG_MISC" v.img data.off 12 4
+
+/-! fields of the IMAGE_DEBUG_MISC at buffer offset `m` (`Dbg::image()`: DataType, Length, Unicode; `image.rs`) -/
+def miscDataType (b : Bytes) (m : Nat) : Nat := le32 b m
+def miscLength (b : Bytes) (m : Nat) : Nat := le32 b (m + 4)
+def miscUnicode (b : Bytes) (m : Nat) : Nat := byteAt b (m + 8)
 
 -- src: debug.rs:pgo    (&[u32] of data.len() / 4 words)
 def pgoEntry (v : View) (d : Nat) : Out Ref :=
@@ -381,6 +388,9 @@ def unwindInfo (v : View) (t : Ref) (i : Nat) : Out Ref :=
 def unwindCodes (v : View) (image : Ref) : Out Ref :=
   rawRef "unwind_codes:from_raw_parts" v.img (image.off + 4) (2 * byteAt v.b (image.off + 2)) 1
 
+/-- `image.CountOfCodes` (what `unwind_info` and `unwind_codes` read at +2) -/
+def uwCountOfCodes (b : Bytes) (image : Ref) : Nat := byteAt b (image.off + 2)
+-- src: exception.rs:UnwindInfo::{version, flags, size_of_prolog, frame_register, frame_offset}
 def uwVersion (b : Bytes) (image : Ref) : Nat := byteAt b image.off % 8
 def uwFlags (b : Bytes) (image : Ref) : Nat := byteAt b image.off / 8
 def uwSizeOfProlog (b : Bytes) (image : Ref) : Nat := byteAt b (image.off + 1)
